@@ -1,7 +1,7 @@
 #!/bin/bash
 # tools/matrix.sh <lab> [k n]   dev-only: every seeded change (the k-th of every n, default all) x all 20 checks,
 # quick tier, in lab <lab> (a tools/lab.sh copy of /repo HEAD and /verif). Output: /tmp/matrix-<lab>.log (one block
-# per change; blocks already present are skipped). tools/matrix_to_meta.py folds the logs into seeded/*/meta.json.
+# per change; blocks already present are skipped). FILTER=<regexp on the id> restricts the set. tools/matrix_to_meta.py folds the logs into seeded/*/meta.json.
 set -u
 LAB=${1:-B}; K=${2:-0}; N=${3:-1}
 LOG=/tmp/matrix-$LAB.log
@@ -10,6 +10,7 @@ i=0
 for d in /verif/seeded/*/; do
   i=$((i+1)); [ $((i % N)) -eq $K ] || continue
   id=$(basename $d)
+  if [ -n "${FILTER:-}" ] && ! echo "$id" | grep -qE -- "$FILTER"; then continue; fi
   grep -q "^##### $id\$" $LOG 2>/dev/null && continue
   st=$(python3 -c "import json;print(json.load(open('$d/meta.json')).get('status',''))")
   { echo "##### $id";
